@@ -5,6 +5,8 @@ import (
 	"errors"
 	"sync"
 	"sync/atomic"
+
+	"github.com/celestiaorg/go-header/internal/verifhook"
 )
 
 // errElapsedHeight is thrown when a requested height was already provided to heightSub.
@@ -80,6 +82,7 @@ func (hs *heightSub) Wait(ctx context.Context, height uint64) error {
 	if hs.Height() >= height {
 		return errElapsedHeight
 	}
+	verifhook.Yield(ctx, "reader.toRegister")
 
 	hs.heightSubsLk.Lock()
 	if hs.Height() >= height {
